@@ -90,7 +90,8 @@ fn make2(kind: &str, a: Dyn, b: Dyn) -> Dyn {
 // ---------- streams
 fn gen_stream(r: &mut Rng, len: usize, positive: bool) -> Vec<f64> {
     let style = r.below(10);
-    let vals: &[f64] = &[-3.0, -2.0, -1.5, -1.0, -0.5, 0.0, 0.0, 0.5, 1.0, 1.0, 2.0, 2.5, 3.0, 4.0];
+    // -0.0 is a finite in-domain input: sites that classify a value once by its sign bit and once by `>= 0` disagree on it
+    let vals: &[f64] = &[-3.0, -2.0, -1.5, -1.0, -0.5, 0.0, -0.0, 0.5, 1.0, 1.0, 2.0, 2.5, 3.0, 4.0];
     let mut out = Vec::with_capacity(len);
     let mut cur = r.pick(vals);
     for i in 0..len {
@@ -104,7 +105,7 @@ fn gen_stream(r: &mut Rng, len: usize, positive: bool) -> Vec<f64> {
             6 => if i < len / 2 { r.pick(vals) } else { 1.0 },             // volatile then flat
             8 => if (i / 3) % 2 == 0 { 0.0 } else { 1.0 },                   // square wave (step to the window extreme and hold)
             9 => if i < 2 { i as f64 } else if i < len / 2 { 0.95 } else { 1.0 },
-            _ => r.pick(&[0.0, 0.0, 1.0, -1.0, 2.0]),                      // many zeros
+            _ => r.pick(&[0.0, -0.0, 1.0, -1.0, 2.0]),                     // many zeros (of both signs)
         };
         out.push(if positive { x.abs() + 0.5 } else { x });
     }
@@ -736,6 +737,11 @@ fn search(prop: &str, s: &mut Search) -> (usize, Option<Case>) {
             "C10" => { c.stream2 = gen_stream(&mut s.rng, len, false); c.a = s.rng.pick(&[0.0, 1.0, -1.0, 2.0, 0.5]); c.b = s.rng.pick(&[0.0, 1.0, -2.0, 0.5]); },
             _ => {}
         }
+        // C08: readiness must not revert however long the input stays constant (recursions that converge bit-exactly make a guarded ratio 0/0
+        // only after dozens of equal values)
+        if prop == "C08" && s.rng.below(6) == 0 { let c0 = *c.stream.last().unwrap(); let c1 = s.rng.pick(&[c0, c0, 1.0, 0.0]); let c1 = if positive_only(k) || c.inner == "ln_return" { c1.abs() + 0.5 } else { c1 }; for _ in 0..140 { c.stream.push(c1); } }
+        // C09: the normalised indicators must stay finite in tiny units as well (d_sum^2 underflows long before d_sum does)
+        if prop == "C09" && matches!(k, "trend_flex" | "re_flex") && s.rng.below(8) == 0 { let f = (2.0f64).powi(-600); for x in c.stream.iter_mut().chain(c.stream2.iter_mut()) { *x *= f; } }
         // views that recompute their answer from the window (or from a fading recursion) at every step keep no trace of a value that has left
         // it: a head of huge values (x 2^60) must leave no rounding residue behind - a running sum introduced as an optimisation does.  Only for
         // views whose code on the pinned tree has that structure (accumulating views drift legitimately: that is C16, not claimed)
